@@ -95,7 +95,7 @@ fn run_session(row: &Value, profile: &str, seed: u64, idx: u64, out: &mut Vec<St
     let log = new_log();
     let mut s = Session { it: Interner { map: HashMap::new() }, out, eps: [Ep::Gone, Ep::Gone], publen };
     s.emit(json!({"ev": "session", "idx": idx, "name": name, "pat": row["pat"], "psks": row["psks"], "publen": publen,
-                  "initpad": row["initpad"], "profile": profile}));
+                  "initpad": row["initpad"], "hfs": row["hfs"].as_bool().unwrap_or(false), "profile": profile}));
     // key material: static keys from the library's own key generation (real OsRng), psks and prologue random
     let mut sks: Vec<Vec<u8>> = vec![];
     let mut pks: Vec<Vec<u8>> = vec![];
